@@ -481,8 +481,46 @@ def ancilla_histories(res):
     return res
 
 
+def compile_isolation(res):
+    """Program.compile(..., shots=N / cutoff_dim=c) writes its run and backend options into the compiled copy only: the
+    user's program keeps its own (empty) options, and a second compile does not change the first compiled copy"""
+    import copy as _copy
+
+    from mc.core.ctx import Res as _Res  # noqa: F401
+
+    for compiler in ("gaussian", "fock", "bosonic"):
+        for first, second in ((({"shots": 3}), {"shots": 5}), ({"shots": 3, "cutoff_dim": 6}, {"cutoff_dim": 4}), ({"cutoff_dim": 6}, {"shots": 2})):
+            res.n += 1
+            res.nt += 1
+            case = {"compile_isolation": True, "compiler": compiler, "first": first, "second": second}
+            P = sf.Program(2)
+            with P.context as q:
+                ops.Sgate(0.3) | q[0]
+                ops.BSgate(0.4, 0.2) | (q[0], q[1])
+            before = (_copy.deepcopy(P.run_options), _copy.deepcopy(P.backend_options))
+            try:
+                with warnings.catch_warnings():
+                    warnings.simplefilter("ignore")
+                    C1 = P.compile(compiler=compiler, **first)
+                    snap1 = (_copy.deepcopy(C1.run_options), _copy.deepcopy(C1.backend_options))
+                    C2 = P.compile(compiler=compiler, **second)
+            except Exception as e:  # noqa: BLE001
+                res.stats[f"compile_isolation:raises:{type(e).__name__}"] += 1
+                continue
+            after = (P.run_options, P.backend_options)
+            if after != before:
+                res.violation("C09|user-program-modified|compile-options", f"Program.compile(compiler={compiler!r}, **{first}) then **{second}: the user's program now has run_options={after[0]}, backend_options={after[1]} (before: {before})", case)
+            if (C1.run_options, C1.backend_options) != snap1:
+                res.violation("C09|compiled-copy-modified|second-compile", f"after a second compile with {second} the first compiled copy (compiled with {first}) has run_options={C1.run_options}, backend_options={C1.backend_options} (had {snap1})", case)
+            want2 = ({k: v for k, v in second.items() if k == "shots"}, {k: v for k, v in second.items() if k == "cutoff_dim"})
+            if (C2.run_options, C2.backend_options) != want2:
+                res.violation("C09|compiled-copy|options", f"compile with {second} after one with {first}: the copy carries run_options={C2.run_options}, backend_options={C2.backend_options}, expected {want2}", case)
+    return res
+
+
 def run(ctx):
     global CUTOFF
+    ctx.add(compile_isolation(Res()))
     quick = ctx.tier == "quick"
     CUTOFF = 5 if quick else 7  # the oracle is differential at one cutoff: the value only sets the cost (workers inherit it)
     plans = {"gaussian": (3, 3) if quick else (4, 4), "fock": (2, 2) if quick else (3, 4), "bosonic": (2, 2) if quick else (3, 3)}
@@ -538,6 +576,9 @@ def run(ctx):
 
 
 def replay(case):
+    if case.get("compile_isolation"):
+        r = compile_isolation(Res())
+        return [(s, w) for s, w, c in r.viol if c["compiler"] == case["compiler"] and c["first"] == case["first"] and c["second"] == case["second"]]
     res = Res()
     if "ancilla_history" in case:
         r = ancilla_histories(Res())
